@@ -335,6 +335,45 @@ def record_pair(make_obj, is_manager, name, budget, chunks, util_chunks, clf, ex
     return t_b, t_a
 
 
+def record_reconfigured(make_obj, is_manager, name, b1, b2, n1, n2, k, d, seed, tag):
+    """C04: one object used on a greedy stream with budget b1, re-configured with set_params(budget=b2) and used
+    on - the configured budget is the one in force from then on (event SetBudget).  Only updates are logged."""
+    rng = np.random.RandomState(seed)
+    obj = make_obj()
+    clf = None if (is_manager or name in BASELINES) else make_clf(seed, d)[0]
+    mgr = None
+    events = []
+
+    def phase(n):
+        nonlocal mgr
+        left = n
+        while left > 0:
+            m = min(k, left)
+            left -= m
+            cand = rng.randint(0, 8, size=(m, d)).astype(float)
+            utils = np.ones(m)
+            with warnings.catch_warnings():
+                warnings.simplefilter("ignore")
+                res, utl = _call_query(obj, is_manager, cand, utils, clf, name)
+                _call_update(obj, is_manager, cand, res, utl)
+            events.append({"ev": "Update", "len": int(m), "q": [int(i) + 1 for i in np.asarray(res)], "dig": 0})
+
+    try:
+        phase(n1)
+        obj.set_params(budget=b2)
+        events.append({"ev": "SetBudget", "B": [min(64, int(math.ceil(b2 * 64 - 1e-12))), 64]})
+        phase(n2)
+    except Exception as ex:
+        events.append({"ev": "Raised", "exc": "%s: %s" % (type(ex).__name__, str(ex)[:200])})
+    mgr = obj if (is_manager or name in BASELINES) else getattr(obj, "budget_manager_", None)
+    bound, w = bound_of(mgr) if mgr is not None else ("none", 1)
+    return dict(B=[min(64, int(math.ceil(b1 * 64 - 1e-12))), 64], W=w, bound=bound, twin=[], events=events,
+                id="%s/%s/reconfigured" % (name, tag),
+                concrete={"object": name, "is_manager": is_manager, "budget": b1, "then_set_params_budget": b2,
+                          "instances_before": n1, "instances_after": n2, "chunk_size": k, "n_features": d,
+                          "seed": seed, "utilities": "all 1.0 (greedy stream)", "extra_queries": None})
+
+
 def finding_key(tr, rej):
     oe = rej["offending_event"] or {}
     ev = oe.get("ev", "end")
